@@ -44,6 +44,10 @@ int32_t psInitPubKey(psPool_t *pool, psPubKey_t *key, uint8_t type)
     {
         return PS_ARG_FAIL;
     }
+    /* Key types without an initialiser of their own (DH, X25519) must not
+       be left with whatever the allocator returned: psClearPubKey() walks
+       the members. */
+    Memset(&key->key, 0, sizeof(key->key));
     switch (type)
     {
 # ifdef USE_RSA
